@@ -9,7 +9,8 @@ import (
 // smallFamily: the memo/backtracking shapes plus a seeded sample of the rest (properties whose
 // harness runs several parses per path).
 func smallFamily(c *Ctx, nSample int) []*family.Grammar {
-	gs := append([]*family.Grammar{}, family.Shapes()...)
+	gs := append([]*family.Grammar{}, family.Long()...)
+	gs = append(gs, family.Shapes()...)
 	rest := family.Dedup(append(family.Basis(3), family.TerminalLayer()...))
 	gs = append(gs, family.Sample(rest, nSample, c.Seed)...)
 	return family.Dedup(gs)
@@ -24,16 +25,63 @@ func init() {
 		}
 		stdBounds(c, N)
 		c.Bounds["histories"] = "two inputs per instance (all pairs of lengths 0..3), the same input twice, and (thorough) three inputs of length <= 2; Size in {unset, 1, 64}; U in {uint16, uint32, uint64, uint} x Size in {unset, 0, 1, 64}"
-		c.Bounds["outside"] = "histories longer than 3 inputs; inputs that do not fit U (excluded by the property); inputs longer than 3 runes in histories"
+		c.Bounds["long_inputs"] = "long-input layer: reuse across lengths (L then 2, 2 then L, L twice; L in 17, 255, 256 quick / up to 300 thorough) and narrow instantiations at the edge of their range: uint8 at 100 runes (127, 128, 254, 255 for grammars with a constant token count), uint16 at 255, 256, 300 (thorough: 65534, 65535); two arbitrary runes per input, the rest a concrete filler"
+		c.Bounds["outside"] = "histories longer than 3 inputs; inputs or token counts that do not fit U (excluded by the property); fully symbolic inputs longer than 3 runes in histories"
 		return smallFamily(c, nS), &GramSpec{
 			Variants: []string{"d"},
 			Entries: func(gg *GenGrammar) []EntrySpec {
-				return []EntrySpec{
+				var narrow []EntrySpec
+				if gg.G.Filler != "" {
+					// long-input layer: the narrow instantiations at lengths that only just fit them
+					narrow = []EntrySpec{
+						{Name: "C12U8", Params: "n int", Body: `hl.C12U(G, []func() hl.Parser{vd.New, vd.New8}, []string{"uint32", "uint8"}, HASACT, []int{-1, 1}, n, NSW)`},
+						{Name: "C12U16", Params: "n int", Body: `hl.C12U(G, []func() hl.Parser{vd.New, vd.New16}, []string{"uint32", "uint16"}, HASACT, []int{-1}, n, NSW)`},
+					}
+				}
+				return append(narrow, []EntrySpec{
 					{Name: "C12", Params: "n1, n2, size int", Body: "hl.C12(G, vd.New, HASACT, size, []int{n1, n2}, false, NSW)"},
 					{Name: "C12same", Params: "n, size int", Body: "hl.C12(G, vd.New, HASACT, size, []int{n, n}, true, NSW)"},
 					{Name: "C12three", Params: "n1, n2, n3, size int", Body: "hl.C12(G, vd.New, HASACT, size, []int{n1, n2, n3}, false, NSW)"},
 					{Name: "C12U", Params: "n int", Body: `hl.C12U(G, []func() hl.Parser{vd.New, vd.New16, vd.New64, vd.NewU}, []string{"uint32", "uint16", "uint64", "uint"}, HASACT, []int{-1, 0, 1, 64}, n, NSW)`},
+				}...)
+			},
+			LongJobs: func(gg *GenGrammar) []*Job {
+				var jobs []*Job
+				steps := func(l int) int { return 2_000_000 + 40_000*l }
+				// reuse across very different lengths: long then short, short then long, long twice
+				for _, lc := range longCases(c, gg.G, 300) {
+					l, h1, h2 := lc[0], lc[1], lc[2]
+					if h1 < 0 {
+						continue
+					}
+					jobs = append(jobs, &Job{Entry: "C12L", Args: []int{h1, h2, l, 2, 1}, MaxSteps: steps(l)},
+						&Job{Entry: "C12L", Args: []int{h1, h2, 2, l, 1}, MaxSteps: steps(l)},
+						&Job{Entry: "C12sameL", Args: []int{h1, h2, l, 64}, MaxSteps: steps(l)})
 				}
+				// narrow instantiations at the largest lengths that fit them: the input (plus the
+				// end marker's offset) and the number of tokens must fit U
+				l8 := []int{100}
+				l16 := []int{255, 256, 300}
+				if gg.G.Flat {
+					l8 = []int{127, 128, 254, 255}
+					if !c.Quick() {
+						l16 = append(l16, 65534, 65535)
+					}
+				}
+				for _, l := range l8 {
+					for _, hs := range [][2]int{{-1, -1}, {0, l - 1}, {l - 2, l - 1}} {
+						jobs = append(jobs, &Job{Entry: "C12U8L", Args: []int{hs[0], hs[1], l}, MaxSteps: steps(l)})
+					}
+				}
+				for _, l := range l16 {
+					if l > gg.G.LongMax {
+						continue
+					}
+					for _, hs := range [][2]int{{0, l - 1}, {l - 2, l - 1}} {
+						jobs = append(jobs, &Job{Entry: "C12U16L", Args: []int{hs[0], hs[1], l}, MaxSteps: steps(l)})
+					}
+				}
+				return jobs
 			},
 			Jobs: func(gg *GenGrammar) []*Job {
 				var jobs []*Job
